@@ -370,6 +370,41 @@ def check(pid, tier):
         rest = re.sub(r'^property=\S+\s*', '', f['raw'][len('finding:'):].strip())
         print(f"KNOWN-FINDING: property={pid} {rest}")
 
+    # witness drivers (concrete runs of the real crate; never counted as proof):
+    #   thorough: always — conformance of contracts and code;  quick: only to attach a failing input to a
+    #   rejected obligation, or to decide a unit the verifier could not (undecided)
+    wit = None
+    if tier == 'thorough' or failures or undecided:
+        try:
+            import witness
+            wit = witness.for_property(pid, REPO, seed)
+        except Exception as e:   # the witness phase is best-effort
+            wit = {'ok': False, 'witnesses': [], 'cases': 0, 'log': f'witness phase error: {e}', 'wall': 0, 'cmd': ''}
+        known_obs = {f.get('obligation') for f in findings}
+        fresh = [w for w in wit['witnesses'] if w['obligation'] not in known_obs]
+        used = set()
+        for f in failures:
+            keys = [lab.split('.', 1)[1] if '.' in lab else lab for lab in f['labels']] + [str(f['function']).split('::')[-1]]
+            for k, w in enumerate(fresh):
+                if any(key and (key in w['obligation'] or w['obligation'] in key or w['obligation'].split('.')[-1] == key.split('.')[-1]) for key in keys):
+                    f['witness'] = {'found': True, 'input': w['input'], 'got': w['got'], 'want': w['want'], 'driver_obligation': w['obligation'],
+                                    'command': f"cd /verif && python3 vx/witness.py {pid}"}
+                    used.add(k)
+                    break
+        used_obs = {fresh[k]['obligation'] for k in used}
+        # a failing input for the property that no rejected obligation accounts for is a violation in its own right
+        seen_ob = set()
+        for k, w in enumerate(fresh):
+            if k in used or w['obligation'] in seen_ob or w['obligation'] in used_obs:
+                continue
+            seen_ob.add(w['obligation'])
+            failures.append({'unit': 'witness', 'function': w['obligation'], 'extracted': False, 'kind': 'concrete-counterexample',
+                             'message': f"real code violates the property on a concrete input: got {w['got']}, want {w['want']}",
+                             'labels': [f"{pid}.witness.{w['obligation']}"], 'props': [pid], 'gen_line': 0, 'clause': w['input'], 'src': None,
+                             'rendered': json.dumps(w, indent=1),
+                             'witness': {'found': True, 'input': w['input'], 'got': w['got'], 'want': w['want'], 'driver_obligation': w['obligation'],
+                                         'command': f"cd /verif && python3 vx/witness.py {pid}"}})
+
     # obligations
     obligations = 0
     functions = []
@@ -422,21 +457,10 @@ def check(pid, tier):
     replay_paths = []
     if failures:
         os.makedirs(os.path.join(VERIF, 'replay'), exist_ok=True)
-        try:
-            import witness
-        except ImportError:
-            witness = None
         for k, f in enumerate(failures):
             name = (f['labels'][0] if f['labels'] else f"{f['unit']}.{f['function']}.{f['kind']}").replace('/', '_')
             rp = os.path.join(VERIF, 'replay', f'{pid}_{name}_{k}.json')
-            w = None
-            if witness is not None and not f.get('witness'):
-                try:
-                    w = witness.search(pid, f, REPO)
-                except Exception as e:  # witness search is best-effort
-                    w = {'found': False, 'note': f'witness search error: {e}'}
-            elif f.get('witness'):
-                w = f['witness']
+            w = f.get('witness') or {'found': False, 'note': 'the witness drivers found no concrete failing input for this obligation'}
             doc = {'property': pid, 'failed_obligation': f['labels'] or [f"{f['function']}:{f['kind']}"], 'unit': f['unit'],
                    'function': f['function'], 'source': f['src'], 'kind': f['kind'], 'message': f['message'],
                    'clause': f['clause'], 'verifier_output': f['rendered'], 'witness': w,
@@ -466,6 +490,9 @@ def check(pid, tier):
         'partners': [{k: v for k, v in pr.items() if k != 'failures'} for pr in partner_reports],
         'seed_variations': [f'{u}:{s}:{r.status}' for (u, s), r in results if s != 0],
         'known_findings': [f['raw'] for f in findings],
+        'witness_drivers': ({'ran': True, 'built': wit['ok'], 'cases': wit['cases'], 'counterexamples': len(wit['witnesses']), 'wall_s': round(wit['wall'], 1),
+                             'cmd': wit['cmd'], 'note': 'concrete boundary/random inputs against the real crate; bounded sampling, NOT counted in obligations/discharged',
+                             'log_tail': ('' if wit['ok'] else wit['log'][-800:])} if wit else {'ran': False}),
         'explanation': coverage_note(pid),
         'exit_code': exit_code,
     }
